@@ -43,7 +43,18 @@ func perturbBody(c *core.Case, body *gen.Body, want map[*gen.Attr]cty.Value, lab
 	var bodies []*gen.Body
 	body.Walk(func(b *gen.Body, d int) { bodies = append(bodies, b) })
 	b := gen.Pick(r, bodies)
-	switch r.Intn(8) {
+	switch r.Intn(9) {
+	case 8: // an attribute whose expression fails at evaluation time
+		for _, a := range b.Attrs() {
+			na := &gen.Attr{Name: a.Name, Expr: gen.Var("nosuchvar", cty.DynamicPseudoType)}
+			want[na] = cty.NilVal
+			for i, it := range b.Items {
+				if it.Attr == a {
+					b.Items[i] = &gen.Item{Attr: na}
+				}
+			}
+			return "failing-expression"
+		}
 	case 0: // drop an attribute
 		for i, it := range b.Items {
 			if it.Attr != nil {
@@ -129,6 +140,8 @@ func litJSON(n *gen.Node) string {
 		return "false"
 	case gen.KNull:
 		return "null"
+	case gen.KVar:
+		return gen.JSONQuote(nil, "${"+n.Name+"}")
 	case gen.KStr:
 		s := strings.ReplaceAll(strings.ReplaceAll(n.Str, "${", "$${"), "%{", "%%{")
 		return gen.JSONQuote(nil, s)
